@@ -508,7 +508,7 @@ func waitIdle(dir string, limit time.Duration) (bool, []string) {
 }
 
 const (
-	quickCases    = 800
+	quickCases    = 8000
 	thoroughCases = 60000
 )
 
